@@ -62,6 +62,9 @@ LONG_COST = 200_000  # products of the model (|s|^2 + |s| |b|) above which the a
 POW2 = [-150, -40, -30, 30, 60, 150]
 DEC = ["1e-12", "1e-9", "1e-6", "1e9"]
 SAFE_LO, SAFE_HI = 2.0 ** -200, 2.0 ** 200  # pixel magnitudes for which no product under/overflows in float64
+TINY_HI = 2.0 ** -900  # pixels below this magnitude (subnormal / smallest normal numbers) beside ordinary ones: their products
+#                        with ordinary pixels (<= 2**200) underflow at worst, far below every margin demanded
+TINY_SINGLE_HI = 2.0 ** -100  # the same for images transformed in single precision (ordinary pixels <= 2**30)
 SINGLE_LO, SINGLE_HI = 2.0 ** -30, 2.0 ** 30  # the same for images whose transform numpy computes in single precision
 SINGLE = ("f4", "f2")  # np.fft keeps float32 (and computes float16 in float32): complex64 transforms
 MARGIN_ABS = Fraction(1, 10 ** 9)  # of the product of the 1-norms, double precision transforms
@@ -98,11 +101,33 @@ def scale_name(scale):
     return "2^%d" % scale["pow2"] if "pow2" in scale else str(scale["dec"])
 
 
-def scene_array(sc, scale=None):
-    """float64 array: (data / 2**q, exact) * factor (one rounding per pixel unless the factor is a power of two)"""
+def scene_array(sc, scale=None, tiny=None):
+    """float64 array: (data / 2**q, exact) * factor (one rounding per pixel unless the factor is a power of two);
+    `tiny`: pixels overwritten with k * 2**e (subnormal / smallest normal numbers, exact)"""
     arr = (np.array(sc["data"], dtype=np.float64) / float(2 ** sc["q"])).reshape(sc["shape"])
     f = scale_factor(scale)
-    return arr if f == 1.0 else arr * np.float64(f)
+    arr = arr if f == 1.0 else arr * np.float64(f)
+    if tiny:
+        arr = arr.copy()
+        for tp in tiny:
+            arr.flat[int(tp["idx"])] = math.ldexp(float(int(tp["k"])), int(tp["e"]))
+    return arr
+
+
+def tiny_valid(tiny, size):
+    """every entry names a pixel of the scene and a value k * 2**e that float64 holds exactly, below 2**-100 (float32
+    subnormals are ordinary float64 numbers; float64 subnormals are below 2**-900; what lies between is left to float_safe)"""
+    try:
+        for tp in tiny:
+            i, k, e = int(tp["idx"]), int(tp["k"]), int(tp["e"])
+            if not (0 <= i < size and k != 0 and abs(k) < 2 ** 53 and -1074 <= e <= -100):
+                return False
+            v = math.ldexp(float(k), e)
+            if v == 0.0 or Fraction(v) != Fraction(k) * Fraction(2) ** e or abs(v) >= TINY_SINGLE_HI:
+                return False
+        return True
+    except (KeyError, ValueError, OverflowError, TypeError):
+        return False
 
 
 def cut(arr, w):
@@ -119,11 +144,18 @@ def img_json(arr):
 
 
 def float_safe(arr):
-    """finite, and every non-zero magnitude inside [2**-200, 2**200]"""
+    """finite, and every non-zero magnitude inside [2**-200, 2**200] or tiny (below 2**-900)"""
     if not np.isfinite(arr).all():
         return False
     nz = np.abs(arr[arr != 0])
+    nz = nz[nz >= TINY_HI]
     return nz.size == 0 or (float(nz.min()) >= SAFE_LO and float(nz.max()) <= SAFE_HI)
+
+
+def only_tiny(arr):
+    """an image whose non-zero pixels are all tiny: its correlation is below float resolution, not judged"""
+    nz = np.abs(arr[arr != 0])
+    return bool(nz.size) and float(nz.max()) < TINY_HI
 
 
 def alloc(shape, pres):
@@ -157,7 +189,10 @@ def pres_ok(content, pres):
     if not np.array_equal(back, content):
         return False
     if dts in SINGLE:
-        nz = np.abs(content[content != 0])
+        nz_all = np.abs(content[content != 0])
+        nz = nz_all[nz_all >= TINY_SINGLE_HI]
+        if nz_all.size and not nz.size:
+            return False  # only tiny pixels: the single precision correlation is below resolution
         if nz.size and not (float(nz.min()) >= SINGLE_LO and float(nz.max()) <= SINGLE_HI):
             return False
     return True
@@ -242,6 +277,8 @@ def valid(case):
             return False
         if not (math.isfinite(f) and f > 0):
             return False
+    if case.get("tiny") is not None and (scale is not None or not tiny_valid(case["tiny"], len(sc["data"]))):
+        return False
     for w in (A, B):
         if len(w["off"]) != d or len(w["shape"]) != d:
             return False
@@ -312,8 +349,10 @@ class C12(Prop):
             data = [rng.randint(-9, 9) for _ in range(size)]
         elif kind == "positive":
             data = [rng.randint(0, 9) for _ in range(size)]
-        elif kind == "negative":  # no pixel above zero
-            data = [-rng.randint(0, 9) for _ in range(size)]
+        elif kind == "negative":  # every pixel below zero
+            data = [-rng.randint(1, 9) for _ in range(size)]
+        elif kind == "clipped":  # nothing above zero and the maximum is exactly zero (background subtracted, positive part clipped)
+            data = [-max(0, rng.randint(-5, 9)) for _ in range(size)]
         elif kind == "binary":  # a mask: zeros and ones
             data = [1 if rng.random() < 0.35 else 0 for _ in range(size)]
         elif kind == "single":  # one pixel that is not zero (assemble moves it into the overlap of the two windows)
@@ -371,8 +410,40 @@ class C12(Prop):
             arr = np.zeros(shape, dtype=object)
             arr[tuple(rng.randrange(l, h) for l, h in zip(lo, hi))] = v
             scene["data"] = [int(x) for x in arr.ravel()]
+        extra = dict(extra) if extra else None
+        if extra and extra.get("zero_only"):
+            # an all-negative texture with one pixel that is exactly zero, seen by only one of the two windows
+            key = extra.pop("zero_only")
+            (o1, s1), (o2, s2) = ((offA, sa), (offB, sb)) if key == "a" else ((offB, sb), (offA, sa))
+            arr = np.array(scene["data"], dtype=object).reshape(shape)
+            own = np.zeros(shape, dtype=bool)
+            own[tuple(slice(o, o + n) for o, n in zip(o1, s1))] = True
+            own[tuple(slice(o, o + n) for o, n in zip(o2, s2))] = False
+            idx = np.flatnonzero(own.ravel())
+            if idx.size:
+                arr.flat[int(idx[rng.randrange(idx.size)])] = 0
+                scene["data"] = [int(v) for v in arr.ravel()]
+        tiny = None
+        if extra and extra.get("tinyspec"):
+            # a few pixels inside the overlap of the two windows hold odd multiples of the smallest subnormal number of the
+            # format, or numbers just above the smallest normal one with an odd last mantissa bit; the rest stays ordinary
+            spec = extra.pop("tinyspec")
+            lo = [max(x, y) for x, y in zip(offA, offB)]
+            hi = [min(x + p, y + q) for x, p, y, q in zip(offA, sa, offB, sb)]
+            e, mant = (-1074, 52) if spec["fmt"] == "f8" else (-149, 23)
+            tiny, seen = [], set()
+            for _ in range(spec["n"]):
+                pos = tuple(rng.randrange(l, h) for l, h in zip(lo, hi))
+                flat = int(np.ravel_multi_index(pos, shape))
+                if flat in seen:
+                    continue
+                seen.add(flat)
+                k = (2 * rng.randint(0, 40) + 1) if rng.random() < 0.6 else (2 ** mant + 2 * rng.randint(0, 2 ** (mant - 1) - 1) + 1)
+                tiny.append({"idx": flat, "k": rng.choice([-1, 1]) * k, "e": e})
         case = {"kind": "reg", "texture": kind, "rel": rel, "scene": scene,
                 "A": {"off": offA, "shape": list(sa)}, "B": {"off": offB, "shape": list(sb)}}
+        if tiny:
+            case["tiny"] = tiny
         if scale is not None:
             case["scale"] = scale
         if extra:
@@ -625,7 +696,7 @@ class C12(Prop):
         d = rng.choice([1, 1, 2, 2, 2, 3])
         hi = {1: 24, 2: 9, 3: 5}[d]
         kind = rng.choice(["signed", "signed", "signed", "sparse", "sparse", "blobs", "positive", "positive", "real", "real",
-                           "real", "negative", "binary", "single"])
+                           "real", "negative", "negative", "clipped", "clipped", "binary", "single"])
         scale = self.pick_scale(rng, kind) if rng.random() < 0.2 else None
         if scale is not None and rng.random() < 0.5:
             rel = "equal"  # equal shapes, non-zero translation, at every scale
@@ -646,7 +717,21 @@ class C12(Prop):
                 i = rng.choice(ax)
                 t[i] = rng.choice([-1, 1]) * rng.randint(1, max(1, (sa[i] - 1) // 2))
         extra = {"bg": "zero"} if rng.random() < 0.15 else {}
-        if rng.random() < 0.35:
+        if kind == "negative" and rng.random() < 0.5:
+            extra["zero_only"] = rng.choice(["a", "b"])
+        tiny_fmt = None
+        if scale is None and kind in ("signed", "positive", "real", "sparse") and rng.random() < 0.08:
+            tiny_fmt = rng.choice(["f8", "f4"])
+            extra["tinyspec"] = {"fmt": tiny_fmt, "n": rng.randint(1, 3)}
+        if tiny_fmt == "f4":
+            lay = lambda: rng.choice(["C", "C", "F", "strided", "rev", "ro"])
+            extra["pres"] = {"a": {"dtype": "f4", "layout": lay()}, "b": {"dtype": "f4", "layout": lay()}}
+        elif kind in ("negative", "clipped") and rng.random() < 0.7:
+            # non-positive textures in single precision, double precision and integer dtypes (also mixed)
+            dts = rng.choice([("f4", "f4"), ("f4", "f4"), ("f8", "f8"), ("i8", "i8"), ("i2", "i2"), ("f4", "i2"), ("i1", "f4"), ("f4", "f8")])
+            lay = lambda: rng.choice(["C", "C", "F", "strided", "rev", "ro"])
+            extra["pres"] = {"a": {"dtype": dts[0], "layout": lay()}, "b": {"dtype": dts[1], "layout": lay()}}
+        elif rng.random() < 0.35:
             # the same values in another dtype / memory layout (drawn among the dtypes that can hold the texture)
             integer = kind != "real" and (scale is None or "pow2" in scale and scale["pow2"] >= 0)
             nonneg = kind in ("sparse", "blobs", "positive", "binary")
@@ -722,6 +807,27 @@ class C12(Prop):
         if tier == "thorough":
             for i in range(24):
                 yield self.gen_long(core.case_rng(0, self.id, "targeted-long", 1 + i), tier)
+        # non-positive textures at a non-zero translation: maximum exactly zero in both images (clipped), in one of them only,
+        # all pixels below zero; as float32, float64, integers and mixed
+        rng = core.case_rng(0, self.id, "targeted-nonpositive", 0)
+        for dts in (("f4", "f4"), ("f8", "f8"), ("i8", "i8"), ("f4", "i2"), ("i1", "f4")):
+            for sa, sb, t, rel in (([9], [9], [3], "equal"), ([6, 7], [3, 4], [2, 1], "sub"), ([3, 4, 3], [3, 3, 3], [1, -1, 0], "overlap")):
+                for kind, ex in (("clipped", {}), ("clipped", {"bg": "zero"}), ("negative", {}), ("negative", {"zero_only": "a"}),
+                                 ("negative", {"zero_only": "b"})):
+                    if rel == "sub" and ex.get("zero_only") == "b":
+                        continue  # b lies inside a: no pixel of its own
+                    yield self.assemble(rng, sa, sb, t, kind, rel, None,
+                                        {**ex, "pres": {"a": {"dtype": dts[0], "layout": "C"}, "b": {"dtype": dts[1], "layout": "C"}}})
+        # a few subnormal / smallest-normal pixels with an odd last mantissa bit inside the overlap, the rest ordinary
+        # (registration is decided by the ordinary pixels; the merge clause is judged bit-exactly), float64 and float32
+        rng = core.case_rng(0, self.id, "targeted-tiny", 0)
+        for fmt in ("f8", "f4"):
+            for sa, sb, t, rel in (([10], [10], [3], "equal"), ([6, 7], [4, 4], [1, 2], "sub")):
+                for kind, ex in (("positive", {"bg": "zero"}), ("real", {}), ("signed", {"bg": "zero"})):
+                    ex = {**ex, "tinyspec": {"fmt": fmt, "n": 3}}
+                    if fmt == "f4":
+                        ex["pres"] = {"a": {"dtype": "f4", "layout": "C"}, "b": {"dtype": "f4", "layout": "C"}}
+                    yield self.assemble(rng, sa, sb, t, kind, rel, None, ex)
         # histories on one pair of array objects, refreshed in place between the calls
         rng = core.case_rng(0, self.id, "targeted-hist", 0)
         # a frame buffer that follows a feature on an empty background, a tile that holds the feature (2-D), ab every time
@@ -807,13 +913,15 @@ class C12(Prop):
             return self.eval_hist(case, ctx, register)
         sc = case["scene"]
         scale = case.get("scale")
-        scene = scene_array(sc, scale)
+        scene = scene_array(sc, scale, case.get("tiny"))
         if not float_safe(scene):
             # a scale that leaves the range in which float64 products neither overflow nor underflow
             return outcome("float-range", "float-range", "float-range", undetermined=True, hyp=False)
         A, B = case["A"], case["B"]
         d = scene.ndim
         a, b = cut(scene, A), cut(scene, B)
+        if only_tiny(a) or only_tiny(b):
+            return outcome("float-range", "float-range", "float-range", undetermined=True, hyp=False)
         t = [ob - oa for oa, ob in zip(A["off"], B["off"])]
         zero = [0] * d
         impl, model, spec = {}, {}, {}
@@ -851,17 +959,28 @@ class C12(Prop):
                                   shapeA=A["shape"], shapeB=B["shape"], est=reps["ab"]["model"],
                                   variants=[{"mode": m, "fill": None if f is None else core.rat(Fraction(f))}
                                             for m, f in MERGE_VARIANTS])
+            # the arrays merged: float64 copies, or the presented float32 arrays themselves (canvas dtype float32; the mean of
+            # two equal values and every fill used are exact there too)
+            f4 = pa is not None and pb is not None and pa.get("dtype") == "f4" and pb.get("dtype") == "f4"
+            ma, mb = (xa, xb) if f4 else (a, b)
+            if f4:
+                feats.add("merge:float32-arrays")
             for (m, f), r in zip(MERGE_VARIANTS, rep["results"]):
                 try:
-                    res = register.overlap_arrays([a, b], [tuple(zero), tuple(impl["ab"])],
+                    res = register.overlap_arrays([ma, mb], [tuple(zero), tuple(impl["ab"])],
                                                   fill=math.nan if f is None else f, mode=m)
-                    impl["merge"].append({"shape": list(res.shape), "data": [fhex(v) for v in res.ravel()]})
+                    impl["merge"].append({"shape": list(res.shape), "data": [fhex(v) for v in np.asarray(res, dtype=np.float64).ravel()]})
                 except Exception as e:
                     impl["merge"].append({"raises": type(e).__name__, "msg": str(e)[:200]})
                 model["merge"].append({"shape": r["shape"], "data": [qhex(v) for v in r["model"]]})
                 spec["merge"].append({"shape": r["specShape"], "data": [qhex(v) for v in r["spec"]]})
             if "nan" in spec["merge"][0]["data"]:
                 feats.add("merge:uncovered-corner")
+            for tp in case.get("tiny") or []:
+                pos = np.unravel_index(int(tp["idx"]), scene.shape)
+                if all(w["off"][i] <= pos[i] < w["off"][i] + w["shape"][i] for w in (A, B) for i in range(d)):
+                    feats.add("merge:tiny-pixel-in-the-overlap:" + ("float32" if f4 else "float64"))
+                    feats.add("merge:tiny-pixel-in-the-overlap:" + ("subnormal" if abs(int(tp["k"])) < 2 ** 23 else "smallest-normal"))
             feats.add("merge-at-the-estimate:replace+mean x fill nan/0/finite")
         else:
             impl["merge"] = model["merge"] = spec["merge"] = MASK
@@ -870,6 +989,12 @@ class C12(Prop):
         if det["ab"]:
             s = [x + y - 1 for x, y in zip(A["shape"], B["shape"])]
             feats |= {f"ndim{d}", "texture:" + case.get("texture", "?"), "rel:" + case.get("rel", "?")}
+            ma_, mb_ = float(a.max()), float(b.max())
+            if max(ma_, mb_) <= 0 and any(t):
+                dtn = "+".join(sorted({(p or {}).get("dtype", "f8") for p in (pa, pb)}))
+                cls = ("maximum-zero-in-both" if ma_ == 0 and mb_ == 0 else "all-negative" if max(ma_, mb_) < 0
+                       else "maximum-zero-in-one")
+                feats |= {"non-positive:" + cls, "non-positive:" + cls + ":" + dtn, "non-positive:moved"}
             inside = all(0 <= l <= x - y for l, x, y in zip(t, A["shape"], B["shape"]))
             outside = all(-(y - x) <= l <= 0 for l, x, y in zip(t, A["shape"], B["shape"]))
             feats.add("sub-window" if inside else "super-window" if outside else "overlapping-windows")
@@ -1075,7 +1200,7 @@ class C12(Prop):
             return
         d = len(case["scene"]["shape"])
         costly = model_cost(case["A"]["shape"], case["B"]["shape"]) > LONG_COST
-        for key in ("scale", "pres"):
+        for key in ("scale", "pres", "tiny"):
             if case.get(key) is not None:
                 yield {k: v for k, v in case.items() if k != key}
         # crop the scene to the bounding box of the two windows
